@@ -49,6 +49,7 @@ def visiting(rep, spec, py):
 			late = [j for j in before[i] if j not in seq[:k]]
 			if late:
 				bad.append('%s processed node %s before its %s %s' % (name, spec['labels'][i], 'successors' if name == 'order phase' else 'predecessors', [spec['labels'][j] for j in late]))
+	bad += simlib.oracle_disruptions(spec, py['trace'])
 	if bad:
 		rep.diff('sim-trace-full', 'documented sequence of events violated on the real code: ' + '; '.join(bad[:3]), spec, py={'oseq': py['oseq'], 'sseq': py['sseq']}, oracle=True, theorem=THEOREM)
 
